@@ -189,15 +189,15 @@ class PyGen:
         return ts
 
     # ------------------------------------------------------------ expressions
-    def expr(self, level='test', ctx=None):
-        """expression at precedence `level` or tighter; returns tokens"""
+    def expr(self, level='test', ctx=None, force=None):
+        """expression at precedence `level` or tighter; returns tokens (`force`: the operator family to put at the top)"""
         lv = LV[level]
         self.spend()
         cs = self.cs
         if self.budget <= 0:
             return self.atom(simple=True)
         # choose the level at which an operator is produced (>= lv); 0 -> descend straight to a primary
-        k = cs.choice(22)
+        k = cs.choice(22) if force is None else force
         if k < 7:
             return self.primary()
         if k == 7 and lv <= LV['named'] and ctx == 'named_ok':
@@ -867,6 +867,8 @@ class PyGen:
     def compound(self, depth):
         cs = self.cs
         k = cs.choice(16)
+        if k == 2:
+            k = 8       # (the `with` statement has a copy of the expression grammar of its own: twice the share of the others)
         if k < 3:
             self.feat('if')
             out = self.suite(depth, [tk('if')] + self.named() + [tk(':')])
@@ -943,6 +945,16 @@ class PyGen:
                         expr = [tk(cs.pick(['[', '{', '(']))]
                         close = {'[': ']', '{': '}', '(': ')'}[expr[0].s]
                         expr += self.sub('or') + [tk('for'), self.name(soft_ok=False), tk('in')] + self.sub('or') + [tk(close)]
+                    it = [M('withitem', mid, False)] + expr
+                elif cs.bool(100):
+                    # the grammar repeats its whole expression hierarchy for the items of a `with` statement: every operator family
+                    # at the top of an item, unparenthesised, goes through productions of that copy
+                    self.feat('with_item_operator_at_top')
+                    expr = self.expr('test', force=8 + cs.choice(12))
+                    if cs.bool(170):
+                        # ... and a redundant pair around the whole item takes it through the ordinary productions instead
+                        pp = self.fresh()
+                        expr = [T('(', '(', pp)] + expr + [T(')', ')', pp)]
                     it = [M('withitem', mid, False)] + expr
                 else:
                     it = [M('withitem', mid, False)] + self.test()
